@@ -1,0 +1,43 @@
+// This Source Code Form is subject to the terms of the Mozilla Public
+// License, v. 2.0. If a copy of the MPL was not distributed with this
+// file, You can obtain one at http://mozilla.org/MPL/2.0/.
+
+//go:build verif
+
+package runtime
+
+import (
+	"github.com/cosi-project/runtime/pkg/controller/runtime/internal/cache"
+	"github.com/cosi-project/runtime/pkg/controller/runtime/internal/dependency"
+	"github.com/cosi-project/runtime/pkg/controller/runtime/internal/qruntime"
+	"github.com/cosi-project/runtime/pkg/controller/runtime/options"
+)
+
+// The declarations below re-export internal packages for the verification harness (build tag verif only).
+
+// VerifQueue is the internal reconcile queue.
+type VerifQueue[K comparable, V any] = qruntime.VerifQueue[K, V]
+
+// VerifQueueItem is an item handed out by the internal reconcile queue.
+type VerifQueueItem[K comparable, V any] = qruntime.VerifQueueItem[K, V]
+
+// VerifNewQueue creates an internal reconcile queue.
+func VerifNewQueue[K comparable, V any]() *VerifQueue[K, V] {
+	return qruntime.VerifNewQueue[K, V]()
+}
+
+// VerifDatabase is the internal controller dependency database.
+type VerifDatabase = dependency.Database
+
+// VerifNewDatabase creates a controller dependency database.
+func VerifNewDatabase() (*VerifDatabase, error) {
+	return dependency.NewDatabase()
+}
+
+// VerifResourceCache is the internal runtime resource cache.
+type VerifResourceCache = cache.ResourceCache
+
+// VerifNewResourceCache creates a runtime resource cache.
+func VerifNewResourceCache(resources []options.CachedResource) *VerifResourceCache {
+	return cache.NewResourceCache(resources)
+}
